@@ -66,7 +66,7 @@ func CorpusC13(seed int64, tier string) []*Case {
 			add(near)
 		}
 	}
-	for _, n := range []string{"a", "A", "ctx", "value", "Value", "userID", "userId", "apiKey", "apikey", "payload", "payLoad", "x1", "X_1", "_x", "ÿ", "name", "Name", "fooBar", "FOOBAR", "v", "err", "s", "n", "b", "f"} {
+	for _, n := range []string{"a", "A", "ctx", "value", "Value", "userID", "userId", "apiKey", "apikey", "payload", "payLoad", "x1", "X_1", "_x", "name", "Name", "fooBar", "FOOBAR", "v", "err", "s", "n", "b", "f"} {
 		add(n)
 	}
 	if tier != "thorough" {
